@@ -61,7 +61,7 @@ func genRecords(t *rapid.T, label string, max int) [][]byte {
 func TestC05(t *testing.T) {
 	rec := ev.Get("C05")
 	rec.Rule("syntactically valid ClientHellos without an acceptable ECH: no ECH / GREASE ECH (random or matching id and suite; enc usually 32 bytes, sometimes of a length or value the KEM refuses) / authentic ECH to a key the server lacks / ECH present but TLS 1.3 not offered / no extension block / empty block; sizes to 16 KiB; key sets none, unrelated, same-id; followed by 0..5 arbitrary records each way. Oracle: bytes read from Conn == bytes sent (record version of the hello excepted), bytes written reach the client unchanged, ServerName/ALPN == harness decoder == crypto/tls ClientHelloInfo. distinct = hello hash; non-trivial = unknown extension type, GREASE ECH or no TLS 1.3")
-	rec.Mandatory("odd_legacy_version", "kind:no_ech", "kind:grease", "kind:grease_matching_id", "kind:foreign_key", "kind:no_tls13_with_ech", "kind:no_ext_block", "kind:empty_ext_block", "size_ge12k", "tls10_only", "keys:none", "keys:unrelated", "keys:same_id", "tls_oracle_used", "enc_unusable_for_kem")
+	rec.Mandatory("odd_legacy_version", "kind:no_ech", "kind:grease", "kind:grease_matching_id", "kind:foreign_key", "kind:no_tls13_with_ech", "kind:no_ext_block", "kind:empty_ext_block", "size_ge12k", "tls10_only", "keys:none", "keys:unrelated", "keys:same_id", "tls_oracle_used", "enc_unusable_for_kem", "no_tls13_high_legacy_version")
 	rapid.Check(t, func(t *rapid.T) {
 		pub := hello.GenName(t, "public_name", 253)
 		key := drawKey(t, "key", -1, pub)
@@ -106,6 +106,12 @@ func TestC05(t *testing.T) {
 		case "no_tls13_with_ech":
 			// authentic payload to the server's own key, but the hello does not offer TLS 1.3
 			o := hello.GenPlain(t, "h", hello.PlainOpts{NoTLS13: true, ECH: []byte{}, ForceSNI: pub})
+			if rapid.IntRange(0, 2).Draw(t, "no13_legacy_version") == 0 {
+				// legacy_version says nothing about TLS 1.3 (RFC 8446 4.2.1): only
+				// supported_versions does, whatever the two legacy bytes hold
+				o.Version = []uint16{0x0304, 0x0305, 0x7f1c, 0xffff, 0x0400}[uniform(t, "no13_lv", 5)]
+				cl0 = append(cl0, "no_tls13_high_legacy_version")
+			}
 			sl, err := hello.NewSealer(key.Config, key.Priv.PublicKey().Bytes(), suite, key.ID)
 			if err != nil {
 				t.Fatalf("harness: %v", err)
